@@ -42,7 +42,7 @@ def run(ctx):
                       "equality whatever their concrete types; containers element-wise; anything else unequal", floor=1)
     ctx.rule("R03.s", "class route: a class-level assignment through a subclass notifies the class watchers only after the subclass shows the new value -- the per-class copy of an inherited "
                       "Parameter is installed in the class namespace before its __set__ (which dispatches) runs (shared with R13.e)", floor=1)
-    ctx.rule("R03.t", "precedence is kept as given: Watcher.__new__ interpreted abstractly stores the precedence it is handed (an integer, a fraction, a negative internal one) unchanged and 0 "
+    ctx.rule("R03.r", "precedence is kept as given: Watcher.__new__ interpreted abstractly stores the precedence it is handed (an integer, a fraction, a negative internal one) unchanged and 0 "
                       "when none is given -- the dispatch order is the order of these numbers", floor=1)
     ctx.rule("R03.a", "every watcher dispatch in Parameter.__set__ is preceded on every path by the value store (or the constant-identity case); "
                       "the event carries old = the value read from the same storage just before the store and new = the stored binding; "
@@ -341,7 +341,7 @@ def run(ctx):
     from checks.c13 import class_set_after_install
     class_set_after_install(ctx, "R03.s")
     from checks.shared import watcher_new_model
-    watcher_new_model(ctx, "R03.t")
+    watcher_new_model(ctx, "R03.r")
 
     # the model-level rule comes last: if the interpreter cannot follow an edited flush,
     # the structural findings above are still reported
